@@ -89,15 +89,30 @@ class Inliner:
                 return ck, "closure"
         return None
 
-    def body(self, key):
-        """(locals, blocks) of function `key` with helpers inlined"""
-        if key in self.done:
-            return self.done[key]
+    def _apply_instance(self, blocks, inst, n_orig):
+        """give the calls of a generic body the callees rustc resolved for the instance `inst` (nested instances included)"""
+        for bbs, c in self.prog.instances[inst].get("calls", {}).items():
+            j = int(bbs)
+            if j < n_orig and blocks[j]["term"]["k"] == "call" and blocks[j]["term"].get("callee") and c.get("rpath"):
+                cal = dict(blocks[j]["term"]["callee"])
+                cal["resolved"] = {"path": c["rpath"], "full": c.get("rfull"), "local": bool(c.get("rlocal")),
+                                   "args": c.get("rargs", []), "kind": "Item", "instance": c.get("instance")}
+                blocks[j]["term"]["callee"] = cal
+
+    def body(self, key, inst=None):
+        """(locals, blocks) of function `key` with helpers inlined; `inst`: the body as instantiated for that instance (the
+        calls inside a generic helper are resolved per instance BEFORE its own helpers are expanded, so that a const-generic
+        helper called from a const-generic helper keeps its `N`)"""
+        memo = key if inst is None else (key, inst)
+        if memo in self.done:
+            return self.done[memo]
         f = self.prog.fns[key]
         self.stack.append(key)
         try:
             locals_ = [dict(l) for l in f.d.get("locals", [])]
             blocks = copy.deepcopy(f.d.get("blocks", []))
+            if inst is not None:
+                self._apply_instance(blocks, inst, len(blocks))
             _desugar_adaptors(self.prog, locals_, blocks)
             i = 0
             while i < len(blocks) and len(blocks) < MAX_BLOCKS:
@@ -112,26 +127,19 @@ class Inliner:
                 i += 1
         finally:
             self.stack.pop()
-        self.done[key] = (locals_, blocks)
-        return self.done[key]
+        self.done[memo] = (locals_, blocks)
+        return self.done[memo]
 
     def _inline_at(self, f, locals_, blocks, bi, tgt):
         key, how = tgt
         callee = self.prog.fns[key]
-        cl, cb = self.body(key)
-        cl = [dict(l) for l in cl]
-        cb = copy.deepcopy(cb)
         t = blocks[bi]["term"]
         inst = ((t.get("callee") or {}).get("resolved") or {}).get("instance")
-        if inst and inst in self.prog.instances and how == "fn":
-            n_orig = len(callee.d.get("blocks", []))
-            for bbs, c in self.prog.instances[inst].get("calls", {}).items():
-                j = int(bbs)
-                if j < n_orig and cb[j]["term"]["k"] == "call" and cb[j]["term"].get("callee") and c.get("rpath"):
-                    cal = dict(cb[j]["term"]["callee"])
-                    cal["resolved"] = {"path": c["rpath"], "full": c.get("rfull"), "local": bool(c.get("rlocal")),
-                                       "args": c.get("rargs", []), "kind": "Item", "instance": c.get("instance")}
-                    cb[j]["term"]["callee"] = cal
+        if not (inst and inst in self.prog.instances and how == "fn"):
+            inst = None
+        cl, cb = self.body(key, inst)
+        cl = [dict(l) for l in cl]
+        cb = copy.deepcopy(cb)
         lb, bb = len(locals_), len(blocks)
         chain = tuple(blocks[bi].get("chain", ())) + (key,)
         for blk in cb:
@@ -417,6 +425,8 @@ def inline_program(prog):
     # helpers all of whose uses are direct calls that were inlined
     refs = {}
     for k, (locals_, blocks) in inl.done.items():
+        if isinstance(k, tuple):
+            continue        # per-instance copy of a generic helper: its references are those of the generic body
         for b in prog.orig_bodies.get(k, (None, prog.fns[k].blocks))[1]:
             for s in b["stmts"]:
                 _count_fnrefs(s, refs)
